@@ -6,6 +6,7 @@
 package main
 
 import (
+	"encoding/base64"
 	"encoding/json"
 	"flag"
 	"fmt"
@@ -38,6 +39,41 @@ var tokens = []string{
 	"-u", "-u=1",
 	"5", "x", "true", "", "\xff-",
 	"-n=99999999999999999999", "-u64=18446744073709551616", // syntactically numbers, out of range: unparsable effective values
+	"-n=3", "-s=dflt", // values whose text equals the tag default
+}
+
+// worlds: what the other configuration sources say while the command line is parsed. The grammar
+// decides which flags the command line assigns; an assignment is observable only against what the
+// field would hold without it, so every vector is judged three times: nothing else speaks (the
+// field would hold its default), a CFG_CONFIG_B64 document gives every field another value, the
+// environment gives every field another value. (Priority command line > environment > JSON.)
+var world int
+
+var worldBase = []Conf{
+	{N: 3, S: "dflt", D: time.Minute, U: 7, Sub: struct {
+		X int64 `flag:"|sub|9|a nested int"`
+	}{9}},
+	{B: true, N: 41, S: "json", D: 5 * time.Second, U: 42, V: 43, Sub: struct {
+		X int64 `flag:"|sub|9|a nested int"`
+	}{44}},
+	{B: true, N: 51, S: "env", D: 6 * time.Second, U: 52, V: 53, Sub: struct {
+		X int64 `flag:"|sub|9|a nested int"`
+	}{54}},
+}
+
+func setWorld(w int) {
+	world = w
+	for _, k := range []string{"CFG_CONFIG_B64", "CFG_B", "CFG_N", "CFG_S", "CFG_D", "CFG_U", "CFG_V", "CFG_SUB_X"} {
+		os.Unsetenv(k)
+	}
+	switch w {
+	case 1:
+		os.Setenv("CFG_CONFIG_B64", base64.StdEncoding.EncodeToString([]byte(`{"B":true,"N":41,"S":"json","D":5000000000,"U":42,"V":43,"Sub":{"X":44}}`)))
+	case 2:
+		for k, v := range map[string]string{"CFG_B": "true", "CFG_N": "51", "CFG_S": "env", "CFG_D": "6s", "CFG_U": "52", "CFG_V": "53", "CFG_SUB_X": "54"} {
+			os.Setenv(k, v)
+		}
+	}
 }
 
 // ---------------------------------------------------------------- reference parser
@@ -53,7 +89,7 @@ var flagKinds = map[string]string{"b": "bool", "n": "int", "s": "string", "d": "
 
 func reference(argv []string) refResult {
 	var r refResult
-	r.conf.N, r.conf.S, r.conf.D, r.conf.Sub.X, r.conf.U = 3, "dflt", time.Minute, 9, 7
+	r.conf = worldBase[world]
 	assigned := map[string]string{}
 	i := 0
 	for i < len(argv) {
@@ -175,6 +211,8 @@ func real(argv []string) (res refResult, panicked any) {
 	return
 }
 
+var worldNames = []string{"", " [CFG_CONFIG_B64 gives every field another value]", " [the environment gives every field another value]"}
+
 type stats struct {
 	Evals, Errors, Accepted int
 	Distinct                map[string]bool
@@ -187,8 +225,8 @@ func judge(argv []string, st *stats) {
 	got, p := real(argv)
 	fail := func(msg string) {
 		if len(st.Viols) < 5 {
-			st.Viols = append(st.Viols, vcommon.Violation{Scenario: "argv", Fingerprint: fmt.Sprintf("%q", argv),
-				Message: fmt.Sprintf("C10: Parse(%q): %s", argv, msg), Witness: map[string]any{"argv": argv},
+			st.Viols = append(st.Viols, vcommon.Violation{Scenario: "argv", Fingerprint: fmt.Sprintf("%q%s", argv, worldNames[world]),
+				Message: fmt.Sprintf("C10: Parse(%q)%s: %s", argv, worldNames[world], msg), Witness: map[string]any{"argv": argv, "world": world},
 				ReplayGo: fmt.Sprintf("// cfg as in checks/c10: fields b,n,s,d,u64,verbosity,sub\nfs, _ := config.NewFlagSet(&cfg)\nerr := fs.Parse(%#v)\n", argv)})
 		}
 	}
@@ -227,7 +265,7 @@ func judge(argv []string, st *stats) {
 			return
 		}
 	}
-	st.Distinct[fmt.Sprintf("%+v|%v|%d", got.conf, got.help, len(got.rest))] = true
+	st.Distinct[fmt.Sprintf("%d|%+v|%v|%d", world, got.conf, got.help, len(got.rest))] = true
 }
 
 func main() {
@@ -238,8 +276,10 @@ func main() {
 		}
 	}
 	maxLen := 4
+	extraWorldLen := 1 // quick: the worlds where another source speaks too run the full length; thorough one token less
 	if vcommon.Thorough() {
 		maxLen = 5
+		extraWorldLen = 0
 	}
 	if i, n, worker := vcommon.ShardSpec(); worker {
 		st := &stats{Distinct: map[string]bool{}}
@@ -249,7 +289,13 @@ func main() {
 			if l == 0 {
 				k++
 				if k%n == i {
-					judge(prefix, st)
+					for w := range worldBase {
+						if w > 0 && len(prefix) > maxLen-1+extraWorldLen {
+							break
+						}
+						setWorld(w)
+						judge(prefix, st)
+					}
 				}
 				return
 			}
@@ -298,10 +344,10 @@ func main() {
 	vcommon.WriteEvidence(&vcommon.Evidence{PropertyID: "C10", Level: "exploration", Violations: n,
 		Coverage: map[string]any{
 			"evaluations": total.Evals, "distinct_nontrivial": len(total.Distinct),
-			"rule":       fmt.Sprintf("every argument vector of length <= %d over %d tokens, parsed by the real FlagSet (bool, int, string, duration, nested int64 fields) and by a reference parser of the documented grammar; distinct_nontrivial = distinct accepted outcomes (field values, ShowUsage, number of trailing args)", maxLen, len(tokens)),
+			"rule":       fmt.Sprintf("every argument vector of length <= %d over %d tokens, each in three worlds (nothing else speaks / a CFG_CONFIG_B64 document gives every field another value / the environment does; in the thorough tier the two latter up to one token less), parsed by the real FlagSet (bool, int, string, duration, nested int64 fields) and by a reference parser of the documented grammar; distinct_nontrivial = distinct accepted outcomes (field values, ShowUsage, number of trailing args)", maxLen, len(tokens)),
 			"exhaustive": true, "accepted": total.Accepted, "rejected": total.Errors, "tokens": fmt.Sprintf("%q", tokens),
 			"samples": []any{[]string{"-b", "x", "-n=5"}, []string{"-s", "-n=5", "--", "-b"}, []string{"-n=x", "-n=5"}, []string{"---s"}},
 		},
-		Assumptions: []string{"no CFG_* environment variable is set and -config is not used, so only the command line speaks", "an unparsable value is an error only if it is the effective (last) one for its flag, as the statement says"}})
+		Assumptions: []string{"-config <file> is not in the alphabet (C09 covers the file carrier); the other sources speak only in the second and third world, with valid values", "an unparsable value is an error only if it is the effective (last) one for its flag, as the statement says"}})
 	os.Exit(code)
 }
